@@ -51,7 +51,13 @@ impl EventGen for SvgElement {
                         return res;
                     }
                 }
-                OtherElement(self.clone()).generate_events(context)
+                if self.name == "svg" && self.get_attr("xmlns").is_some() {
+                    // Namespaced `<svg>` elements are passed through transparently
+                    // (see Container); that includes the empty-element form.
+                    Ok((self.all_events(context).into(), None))
+                } else {
+                    OtherElement(self.clone()).generate_events(context)
+                }
             }
         };
         // Ideally would have a single 'if bbox, set prev_element' here,
